@@ -74,6 +74,71 @@ fn parse_head(rest: &str, line_no: usize) -> Block {
     b
 }
 
+/// L33: a `//@lift` that fails only because the function calls another function / method of the SAME source file for
+/// which the template has neither `//@lextern` nor `//@lift` (a helper that was extracted by a refactoring, a provided
+/// trait method) lifts that callee first - whole, under its own name - and tries again (at most three levels).  The
+/// callee's text is emitted in front of the caller's; the evidence lists it as an item of its own.
+fn lift_with_callees(ctx: &mut Ctx, blk: &Block, depth: usize) -> Result<(String, Value), String> {
+    let first = crate::lift::lift_fn(ctx, blk);
+    let Err(e) = &first else { return first };
+    if depth >= 3 || blk.args.len() < 2 {
+        return first;
+    }
+    // `method `.NAME()` on T (no //@lextern / //@lift for it)`  /  `call of `PATH` (no //@lextern / //@lift for `KEY`)`
+    let name: Option<String> = if let Some(i) = e.find("method `.") {
+        e[i + 9..].split("()`").next().map(|x| x.to_string())
+    } else if let Some(i) = e.find("call of `") {
+        e[i + 9..].split('`').next().and_then(|p| p.rsplit("::").next()).map(|x| x.to_string())
+    } else {
+        None
+    };
+    let Some(name) = name else { return first };
+    if !e.contains("no //@lextern / //@lift for") || name.is_empty() {
+        return first;
+    }
+    let file = blk.args[0].clone();
+    if ctx.load(&file).is_err() {
+        return first;
+    }
+    // candidates, in this order: a provided method of the trait the caller belongs to, a method of the caller's impl
+    // type, a free function of the file
+    let caller = blk.args[1].clone();
+    let mut cands: Vec<String> = Vec::new();
+    if let Some(rest) = caller.strip_prefix("trait:") {
+        if let Some((tr, _)) = rest.split_once("::") {
+            cands.push(format!("trait:{tr}::{name}"));
+        }
+    } else if let Some((ty, _)) = caller.rsplit_once("::") {
+        cands.push(format!("{ty}::{name}"));
+        if let Some((t0, _)) = ty.split_once('@') {
+            cands.push(format!("{t0}::{name}"));
+        }
+    }
+    cands.push(name.clone());
+    for c in cands {
+        let found = crate::locate::find_fn(&ctx.files[&file].1, &c).is_ok();
+        if !found {
+            continue;
+        }
+        let sub = Block { kind: "lift".into(), args: vec![file.clone(), c.clone()], line_no: blk.line_no, ..Default::default() };
+        let Ok((ctext, crep)) = lift_with_callees(ctx, &sub, depth + 1) else { return first };
+        return match lift_with_callees(ctx, blk, depth + 1) {
+            Ok((text, mut rep)) => {
+                let note = json!({"rule": "L33", "line": 0, "note": format!("callee `{c}` of the same file lifted on demand (no //@lextern / //@lift in the template)")});
+                if let Some(a) = rep.get_mut("rewrites").and_then(|r| r.as_array_mut()) {
+                    a.push(note);
+                } else {
+                    rep["rewrites"] = json!([note]);
+                }
+                rep["callee_items"] = json!([crep]);
+                Ok((format!("{ctext}\n{text}"), rep))
+            }
+            Err(_) => first,
+        };
+    }
+    first
+}
+
 fn directive(line: &str) -> Option<&str> {
     let t = line.trim_start();
     t.strip_prefix("//@").map(|r| r.trim_end())
@@ -153,7 +218,7 @@ pub fn process(ctx: &mut Ctx, text: &str) -> Result<(String, Vec<Value>), (Strin
             "trait" => crate::extract::extract_trait(ctx, &blk),
             "fn" => crate::extract::extract_fn(ctx, &blk),
             "skeleton" => crate::skeleton::skeleton_fn(ctx, &blk),
-            "lift" => crate::lift::lift_fn(ctx, &blk),
+            "lift" => lift_with_callees(ctx, &blk, 0),
             "scan" => crate::scan::scan(ctx, &blk),
             k => Err(format!("template line {}: unknown directive `{k}`", blk.line_no)),
         };
